@@ -214,6 +214,9 @@ def check(ctx: Ctx):
                       "the selected value must be a member of the optimal-value list returned by find_optimal")
     ctx.floor("R-MOVE", 12)
     ctx.floor("R-MODE.b", 12)
+    # huge-magnitude costs: table values must leave the matrix as Python numbers (unbounded ints), not fixed-width numpy scalars
+    ctx.rule("R-SCALAR", "NAryMatrixRelation.get_value_for_assignment returns <table>.item(): sums of large integer costs do not wrap")
+    RR.check_matrix_scalar(ctx, "R-SCALAR")
     ctx.floor("R-TIES", 12)
 
 
@@ -323,6 +326,7 @@ def _check_projection(ctx, proj):
 
 _R = "pydcop/dcop/relations.py"
 VARIANTS = [
+    ("matrix_value_as_numpy_scalar", "pydcop/dcop/relations.py", "        elif isinstance(var_values, dict):\n            u = self.slice(var_values)\n            return u._m.item()", "        elif isinstance(var_values, dict):\n            u = self.slice(var_values)\n            return u._m[()]", "break", "R-SCALAR"),
     ("fao_flip_min", _R, "            mode == \"min\" and best_rel_val > current_rel_val", "            mode == \"min\" and best_rel_val < current_rel_val", "break", "R-MODE.b"),
     ("fao_nonstrict", _R, "(mode == \"max\" and best_rel_val < current_rel_val)", "(mode == \"max\" and best_rel_val <= current_rel_val)", "break", "R-MODE.b"),
     ("fao_sentinel_back", _R, "    if mode == \"min\":\n        best_rel_val = float(\"inf\")", "    if mode == \"min\":\n        best_rel_val = get_data_type_max(DEFAULT_TYPE)", "break", "R-MODE.c"),
